@@ -105,6 +105,7 @@ type Run struct {
 	mutexes     map[*Slot]*mutexState
 	timerBySlot map[*Slot]*timerEnv
 	clock       int
+	mapOrderOff bool
 	ordS, ordU  *ordGraph
 
 	outcome Outcome
